@@ -27,7 +27,7 @@ def run(chk, tier):
     P = Prog("default")
     chk.configs.add("default")
     fo = Folder(P)
-    for r in (r_enums, r_weekday, r_month, r_conversions, r_names, r_set, r_iter):
+    for r in (r_enums, r_weekday, r_month, r_conversions, r_names, r_set, r_iter, r_whole_input, r_from_iter):
         chk.guarded(r, P, fo)
     chk.assume("finite maps are obtained by folding the def-use terms of the function bodies over the finite argument domain; "
                "std integer helpers (trailing_zeros, leading_zeros, count_ones) are modelled")
@@ -423,3 +423,43 @@ def step(fo, paths, env, a):
         except Unknown as e:
             return "unknown: %s" % e
     return "no path"
+
+
+def r_whole_input(chk, P, tier):
+    """FromStr for Weekday / Month accept a name only when nothing is left over: every Ok path has tested the scanner's remainder for emptiness"""
+    chk.rule("WHOLE.from_str", "Weekday::from_str and Month::from_str return Ok only on paths that found the scanner's remainder empty", floor=2)
+    for ty, scanner in (("weekday::Weekday", "short_or_long_weekday"), ("month::Month", "short_or_long_month0")):
+        fn = "format::<impl std::str::FromStr for %s>::from_str" % ty
+        oks = [p for p in Sym(P, fn).paths() if p.end[0] == "return" and result_variant(p.ret)[0] == "Ok"]
+        if not oks:
+            raise AnchorLost(fn + ": no Ok path")
+        bad = 0
+        for p in oks:
+            tested = False
+            for c in p.conds:
+                t = c[1]
+                if not (isinstance(t, tuple) and t and t[0] == "call" and isinstance(t[1], str)):
+                    continue
+                name = t[1]
+                rem = [a for a in walk_terms(t) if a[0] == "field" and a[2] == 0 and a[1][0] == "field" and a[1][2] == 0 and any(
+                    x[0] == "call" and str(x[1]).endswith(scanner) for x in walk_terms(a))]
+                if not rem:
+                    continue
+                truthy = c[2] != 0
+                if name.endswith("PartialEq for str>::eq") and truthy and any(x[0] == "const" and x[1] == "" for x in walk_terms(t)):
+                    tested = True
+                if name.endswith("<impl str>::is_empty") and truthy:
+                    tested = True
+            if not tested:
+                bad += 1
+        chk.expect(bad == 0, ty.split("::")[-1], "%s returns Ok on %d of %d paths without having found the remainder of %s empty (trailing text accepted)" % (fn, bad, len(oks), scanner), loc=P.loc(fn))
+
+
+def r_from_iter(chk, P, tier):
+    chk.rule("ALL.from_iter", "WeekdaySet::from_iter folds the whole iterator: no truncating or filtering adapter between into_iter and the fold", floor=1)
+    fn = "<weekday_set::WeekdaySet as std::iter::FromIterator<weekday::Weekday>>::from_iter"
+    from rules import callees
+    cs = callees(P, fn)
+    drop = sorted(c for c in cs if c.split("::")[-1] in ("take", "skip", "step_by", "take_while", "skip_while", "filter", "filter_map", "nth", "last", "find", "position", "peekable", "map_while", "scan"))
+    consume = [c for c in cs if c.split("::")[-1] in ("fold", "for_each", "next", "reduce")]
+    chk.expect(not drop and consume, "from_iter", "WeekdaySet::from_iter %s" % ("passes the iterator through %s (elements can be lost)" % drop if drop else "does not consume the iterator (callees %s)" % sorted(cs)), loc=P.loc(fn))
